@@ -153,6 +153,11 @@ def main():
             else:
                 what = "%s: variant %s: %s: %s" % (pid, name, st, det.get("err"))
                 cex = {"property": PROP, "program": srcs.get(pid, pid), "variant": name, "error": det.get("err")}
+            # class of the listed GMW divider defect (C07): a GMW variant of a program that divides at 7, 9 or 10 bits
+            import re as _re
+            psrc = srcs.get(pid, "")
+            if name.startswith("gmw") and _re.search(r"[/%]", psrc) and _re.search(r"\b(u?int)(7|9|10)\b", psrc):
+                what += " [class gmw-divider-7-9-10]"
             km = [k for k in known if k["key"] in what]
             if km:
                 kf_lines.append("KNOWN-FINDING: property=%s %s (%s)" % (PROP, km[0]["what"], what[:200]))
